@@ -25,11 +25,11 @@ from harness.wire import RecordingWriter
 PROP = "C14"
 LEVEL = "exploration"
 TECHNIQUE = 'conservation / exactly-once checker over per-writer byte streams (files read back from disk) against a reference recording writer'
-LEVEL_TEXT = 'Held on random add/remove/write/flush/teardown histories over seven writer kinds.'
+LEVEL_TEXT = 'Held on random add/remove/write/flush/teardown histories over eleven writer kinds.'
 RULE = ("histories (25-45 events) of add_writer (incl. duplicates and re-adds) / remove_writer / emitting "
         "calls (moves, comments with non-ASCII text, tool and mode commands) / flush / teardown over mixes "
-        "of path-based FileWriter, BytesIO, StringIO, real binary and utf-8 text file objects, ConsoleWriter "
-        "(captured stdout buffer) and custom writers, line endings LF and CRLF; distinct = (writer-kind "
+        "of path-based FileWriter, BytesIO, StringIO, text streams that claim to be terminals, real binary and utf-8/latin-1/utf-16 text file objects, ConsoleWriter "
+        "(captured binary stdout/stderr buffer, and text-only stdout/stderr without .buffer) and custom writers, line endings LF and CRLF; distinct = (writer-kind "
         "multiset, event kind)")
 ASSUMPTIONS = [
     "payload sequence = what a custom recording writer registered first receives (one payload per statement)",
@@ -46,7 +46,14 @@ FLOORS = {
     "thorough": {"counts": {"writer_stream_comparisons": 700000}, "keys": 150},
 }
 KINDS = ["path", "bytesio", "stringio", "binfile", "textfile", "console", "custom",
-         "textfile-latin1", "textfile-utf16"]
+         "textfile-latin1", "textfile-utf16", "tty-text", "console-text"]
+
+
+class TtyText(io.StringIO):
+    """A caller-supplied text stream that claims to be a terminal (pty wrapper, notebook cell...)."""
+
+    def isatty(self):
+        return True
 TEXT_ENCODINGS = {"textfile": "utf-8", "textfile-latin1": "latin-1", "textfile-utf16": "utf-16"}
 
 
@@ -80,6 +87,27 @@ class W:
             self.path = os.path.join(tmp, f"txt{idx}.gcode")
             self.stream = open(self.path, "w", encoding=TEXT_ENCODINGS[kind], newline="")
             self.writer = FileWriter(self.stream)
+        elif kind == "tty-text":
+            self.stream = TtyText(newline="")
+            self.writer = FileWriter(self.stream)
+        elif kind == "console-text":
+            # the console writer while sys.stdout / sys.stderr is a text-only replacement without
+            # .buffer (redirect_stdout(StringIO()), notebooks, IDLE)
+            fake = io.StringIO(newline="")
+            use_err = idx % 2 == 1
+            old = sys.stderr if use_err else sys.stdout
+            try:
+                if use_err:
+                    sys.stderr = fake
+                else:
+                    sys.stdout = fake
+                self.writer = ConsoleWriter(stderr=use_err)
+            finally:
+                if use_err:
+                    sys.stderr = old
+                else:
+                    sys.stdout = old
+            self.stream = fake
         elif kind == "console":
             class FakeStd:
                 buffer = io.BytesIO()
@@ -109,7 +137,7 @@ class W:
             return b"".join(self.writer.payloads)
         if k in ("bytesio", "console"):
             return self.stream.getvalue()
-        if k == "stringio":
+        if k in ("stringio", "tty-text", "console-text"):
             return self.stream.getvalue().encode("utf-8")
         if k in ("binfile", "path") or k in TEXT_ENCODINGS:
             if not after_flush:
